@@ -45,8 +45,9 @@ reported as replicated is already covered by the cached heads; C16). -/
 def loadComplete : List String := ["join", "index", "heads", "headput", "emit"]
 
 /-- `BaseStore.Close` (`Model/Lifecycle.lean`): the already-closed guard comes first, so that the
-tear-down — which unregisters the store in its instance BY ADDRESS — runs at most once per handle. -/
-def close : List String := ["guard", "cancel", "unregister", "stop", "cacheclose"]
+tear-down — which unregisters the store in its instance BY ADDRESS — runs at most once per handle; the
+channels of the legacy API are ended with the store (F51). -/
+def close : List String := ["guard", "cancel", "unregister", "stop", "unsubscribe", "cacheclose"]
 
 /-- one iteration of the loop of `BaseStore.Sync` (`syncHeads`): access check, local write of the
 head, hash check, and only then the head is put on the list handed to the replicator. -/
